@@ -140,8 +140,85 @@ def type_witness(check: Check, repo: Repo, mods: Iterable[Module], rule: str = "
                     # dereferences it, so the None it may now hold cannot fail
                     check.ob(rule, (m.rel, ln, fn), f"[{code}] {msg[:140]}", True, stored)
                     continue
+                shared = _union_local_attrs_shared(repo, m, ln, msg)
+                if shared:
+                    check.ob(rule, (m.rel, ln, fn), f"[{code}] {msg[:140]}", True, shared)
+                    continue
             check.ob(rule, (m.rel, ln, fn), f"[{code}] {msg[:140]}", False, "mypy: " + msg)
     check.note(mypy_errors=len(errs))
+
+
+def _class_has_attr(classes, ci, attr: str) -> bool:
+    for c in classes.mro(ci):
+        for st in c.node.body:
+            if isinstance(st, (ast.FunctionDef, ast.AsyncFunctionDef)) and st.name == attr:
+                return True
+            if isinstance(st, ast.AnnAssign) and isinstance(st.target, ast.Name) and st.target.id == attr:
+                return True
+            if isinstance(st, ast.Assign) and any(isinstance(t, ast.Name) and t.id == attr for t in st.targets):
+                return True
+            if isinstance(st, (ast.FunctionDef, ast.AsyncFunctionDef)):
+                for x in ast.walk(st):
+                    if isinstance(x, ast.Attribute) and isinstance(x.ctx, ast.Store) and x.attr == attr and isinstance(x.value, ast.Name) and x.value.id == "self":
+                        return True
+    return False
+
+
+def _union_local_attrs_shared(repo: Repo, m: Module, line: int, msg: str) -> str | None:
+    """`x = f()` (type A | None) followed by `if not x: x = g()` (type B | None): mypy fixes the type of the unannotated
+    local at the first assignment and reports the second one.  At run time the local simply holds an A or a B; the
+    message is an artefact of inference order when (1) the local is not declared, (2) None is admitted by the inferred
+    type whenever the new value admits it, and (3) every attribute the function reads from the local exists on every
+    repository class the new value can be an instance of."""
+    import re
+
+    from sa.loader import enclosing_function, parent
+    from sa.resolve import ClassIndex
+
+    mm = re.search(r'expression has type "([^"]+)", variable has type "([^"]+)"', msg)
+    if not mm:
+        return None
+    new_t = [t.strip() for t in mm.group(1).split("|")]
+    old_t = [t.strip() for t in mm.group(2).split("|")]
+    if "None" in new_t and "None" not in old_t:
+        return None
+    asg = [s for s in ast.walk(m.tree) if isinstance(s, ast.Assign) and s.lineno <= line <= (s.end_lineno or s.lineno)
+           and len(s.targets) == 1 and isinstance(s.targets[0], ast.Name)]
+    if len(asg) != 1:
+        return None
+    fn = enclosing_function(asg[0])
+    if fn is None or isinstance(fn, ast.Lambda):
+        return None
+    name = asg[0].targets[0].id
+    if any(isinstance(s, ast.AnnAssign) and isinstance(s.target, ast.Name) and s.target.id == name for s in ast.walk(fn)):
+        return None
+    if name in {a.arg for a in fn.args.posonlyargs + fn.args.args + fn.args.kwonlyargs}:
+        return None
+    classes = ClassIndex(repo)
+    cis = []
+    for t in new_t:
+        if t == "None":
+            continue
+        short = t.split("[")[0].split(".")[-1]
+        found = [ci for full, ci in classes.by_full.items() if full.split(".")[-1] == short or full.split(":")[-1] == short]
+        if len(found) != 1:
+            return None
+        cis.append(found[0])
+    attrs = set()
+    for u in ast.walk(fn):
+        if isinstance(u, ast.Name) and u.id == name and isinstance(u.ctx, ast.Load):
+            p = parent(u)
+            if isinstance(p, ast.Attribute) and p.value is u:
+                attrs.add(p.attr)
+            elif isinstance(p, (ast.Call, ast.Subscript)) and (getattr(p, "func", None) is u or getattr(p, "value", None) is u):
+                return None
+            elif isinstance(p, (ast.BinOp, ast.For, ast.comprehension, ast.Starred, ast.Await)):
+                return None
+    missing = [(ci.node.name, a) for ci in cis for a in sorted(attrs) if not _class_has_attr(classes, ci, a)]
+    if missing or not cis:
+        return None
+    return (f"`{name}` is an undeclared local whose type mypy fixed at its first assignment; the attributes read from it "
+            f"({', '.join(sorted(attrs)) or 'none'}) exist on {', '.join(ci.node.name for ci in cis)} as well")
 
 
 def _optional_only_stored(m: Module, line: int) -> str | None:
